@@ -1058,7 +1058,10 @@ struct Exec {
                 }
             }
         }
-        if (op.has("keep")) {
+        if (op.has("keep") && lib.name == NULL) {
+            // a failed load leaves nothing to save again
+            guarded([&]() { lib.free_all(); });
+        } else if (op.has("keep")) {
             std::string name = op.gets("keep");
             // later cycles compare everything as lines: pieces are ordinary polygons by then
             bridge::ExtractOptions xo2;
@@ -1086,6 +1089,7 @@ struct Exec {
         std::string from = op.gets("from"), file = op.gets("file");
         if (!libs.count(from)) return;
         Library& lib = libs[from];
+        if (lib.name == NULL) return;
         tm ts;
         bool have_ts = tm_from_json(op.at("ts"), ts);
         tm given = ts;
@@ -1933,7 +1937,9 @@ struct Exec {
                 }
             }
         }
-        if (op.has("keep")) {
+        if (op.has("keep") && lib.name == NULL) {
+            guarded([&]() { lib.free_all(); });
+        } else if (op.has("keep")) {
             std::string name = op.gets("keep");
             if (have) got.precision = E.c.precision;
             canons[name] = got;
@@ -1950,6 +1956,7 @@ struct Exec {
         std::string from = op.gets("from"), file = op.gets("file");
         if (!libs.count(from)) return;
         Library& lib = libs[from];
+        if (lib.name == NULL) return;
         ErrorCode ec = ErrorCode::NoError;
         guarded([&]() {
             set_policy(op);
